@@ -2091,3 +2091,11 @@ package gomatrixserverlib
 //@   requires r != nil
 //@   calls resolveAuthBlock@root before-any-result-of-this-type-is-registered: !called(addAuthEvent)
 //@   loop 1: invariant 0 <= idx(1) && idx(1) <= len(blocks)
+
+// the fallback of iterative auth checks: only a non-rejected auth event of the event, of the wanted type and state key
+//@ func (*stateResolverV2).authAndApplyEvents$1
+//@   property C10
+//@   nosafety
+//@   purecallbacks
+//@   calls AddEvent@root adds-the-auth-event-not-the-event: exists i int :: 0 <= i && i < len(root_event.AuthEventIDs()) && root_event.AuthEventIDs()[i] in r.authEventMap && event == r.authEventMap[root_event.AuthEventIDs()[i]] && event.Type() == root_eventType && event.StateKeyEquals(root_stateKey)
+//@   loop 1: invariant 0 <= idx(1) && idx(1) <= len(event.AuthEventIDs())
